@@ -30,7 +30,11 @@ pub fn panic_sig(p: &str) -> String {
     let msg = parts.next().unwrap_or("");
     let loc2: Vec<&str> = loc.rsplitn(2, ':').collect(); // drop column
     let loc = loc2.last().copied().unwrap_or(loc);
-    let loc = loc.rsplit("/repo/").next().unwrap_or(loc);
+    // rustfmt's own sources: independent of where the tree under test is checked out
+    let loc = match (loc.contains("/registry/src/"), loc.find("/src/")) {
+        (false, Some(i)) if loc.starts_with('/') => &loc[i + 1..],
+        _ => loc,
+    };
     // dependencies: keep crate directory and file, not the registry path
     let loc = match loc.find("/registry/src/") {
         Some(i) => loc[i + "/registry/src/".len()..].splitn(2, '/').nth(1).unwrap_or(loc),
